@@ -673,6 +673,16 @@ func (o *c10Obs) Final(w *wWorld) *kit.Viol {
 				}
 			}
 			if !both {
+				// one side has muted the other: whether 'on' is said at all is not the statement's subject,
+				// but a partner who WAS told 'on' and holds P is not left believing it after the user has
+				// gone (the 'off' of an unloading 'me' topic goes to every contact)
+				if ma.IsPresencer() && !truth {
+					for _, sess := range obsSessions {
+						if t, ok := o.told[sess][src]; ok && t.online && t.how == "pres" {
+							return kit.V("p2p-told-online-never-offline:one-sided-mute", "settled: session %d of user %d (P held) was last told {pres on} about user %d, who has muted that topic and is gone now: no 'off' was sent", sess, a, b)
+						}
+					}
+				}
 				continue
 			}
 			for _, sess := range obsSessions {
